@@ -354,3 +354,85 @@ Proof.
   exists (JObj [(s2l "size", JArr [JNum (NU 18446744073709551615); JNum (NU 2)]); (s2l "data", JStr [])]).
   vm_compute. reflexivity.
 Qed.
+
+(* ------------------------------------------------------------ any key order *)
+
+From Coq Require Import Permutation.
+
+Lemma step_size h w r acc : h <= u64_max -> w <= u64_max ->
+  image_fields ((s2l "size", ser_size (h, w)) :: r) acc
+  = image_fields r {| a_size := Some (h, w); a_data := a_data acc; a_channels := a_channels acc |}.
+Proof.
+  intros Hh Hw. cbn [image_fields].
+  change (str_eqb (s2l "size") (s2l "data")) with false.
+  change (str_eqb (s2l "size") (s2l "channels")) with false.
+  change (str_eqb (s2l "size") (s2l "size")) with true. cbv iota.
+  assert (S1 : de_size (ser_size (h, w)) = Some (h, w)).
+  { unfold ser_size, de_size. cbn [fst snd size_fields].
+    change (str_eqb (s2l "height") (s2l "height")) with true.
+    change (str_eqb (s2l "width") (s2l "height")) with false.
+    change (str_eqb (s2l "width") (s2l "width")) with true. cbv iota.
+    unfold de_usize.
+    assert (L1 : (h <=? u64_max) = true) by (apply N.leb_le; exact Hh).
+    assert (L2 : (w <=? u64_max) = true) by (apply N.leb_le; exact Hw).
+    rewrite L1, L2. reflexivity. }
+  rewrite S1. reflexivity.
+Qed.
+
+Lemma step_channels c r acc : channels_ok c = true ->
+  image_fields ((s2l "channels", JNum (NU c)) :: r) acc
+  = image_fields r {| a_size := a_size acc; a_data := a_data acc; a_channels := c |}.
+Proof.
+  intros Hc. cbn [image_fields].
+  change (str_eqb (s2l "channels") (s2l "data")) with false.
+  change (str_eqb (s2l "channels") (s2l "channels")) with true. cbv iota.
+  unfold de_usize.
+  assert (L : (c <=? u64_max) = true).
+  { apply N.leb_le. unfold channels_ok in Hc. unfold u64_max. lia. }
+  rewrite L, Hc. reflexivity.
+Qed.
+
+Lemma step_data data r acc : bytes_ok data = true ->
+  image_fields ((s2l "data", JStr (rfc4648 data)) :: r) acc
+  = image_fields r {| a_size := a_size acc; a_data := a_data acc ++ data; a_channels := a_channels acc |}.
+Proof.
+  intros Hb. cbn [image_fields].
+  change (str_eqb (s2l "data") (s2l "data")) with true. cbv iota. cbn [de_str].
+  rewrite utf8_encode_ascii by apply rfc4648_ascii.
+  rewrite decode_all_roundtrip by exact Hb. reflexivity.
+Qed.
+
+Lemma perm3 {A} (m : list A) a b c :
+  Permutation m [a; b; c] ->
+  m = [a; b; c] \/ m = [a; c; b] \/ m = [b; a; c] \/ m = [b; c; a] \/ m = [c; a; b] \/ m = [c; b; a].
+Proof.
+  intros P. pose proof (Permutation_length P) as L.
+  destruct m as [|x [|y [|z [|? ?]]]]; cbn in L; try discriminate.
+  assert (Hx : In x [a; b; c]) by (apply (Permutation_in _ P); left; reflexivity).
+  destruct Hx as [<-|[<-|[<-|[]]]].
+  - apply Permutation_cons_inv in P. apply Permutation_length_2_inv in P as [E|E]; injection E as -> ->; auto.
+  - assert (P' : Permutation (b :: [y; z]) (b :: [a; c])).
+    { eapply perm_trans; [exact P|]. apply perm_swap. }
+    apply Permutation_cons_inv in P'. apply Permutation_length_2_inv in P' as [E|E]; injection E as -> ->; auto 10.
+  - assert (P' : Permutation (c :: [y; z]) (c :: [a; b])).
+    { eapply perm_trans; [exact P|]. eapply perm_trans; [apply perm_skip, perm_swap | apply perm_swap]. }
+    apply Permutation_cons_inv in P'. apply Permutation_length_2_inv in P' as [E|E]; injection E as -> ->; auto 10.
+Qed.
+
+(* a document with the three fields in any order *)
+Theorem image_any_order c h w data (m : list (str * json)) :
+  channels_ok c = true -> bytes_ok data = true ->
+  h <= u64_max -> w <= u64_max ->
+  N.of_nat (length data) = h * w * c -> h * w * c < usize_lim ->
+  Permutation m [(s2l "size", ser_size (h, w)); (s2l "channels", JNum (NU c)); (s2l "data", JStr (rfc4648 data))] ->
+  image_de (JObj m) = Ok {| i_h := h; i_w := w; i_pix := pixels_of c data |}.
+Proof.
+  intros Hc Hb Hh Hw Hlen Hlim P.
+  assert (F : image_fields m acc0 = Ok {| a_size := Some (h, w); a_data := data; a_channels := c |}).
+  { apply perm3 in P as [->|[->|[->|[->|[->| ->]]]]];
+      repeat (first [rewrite step_size by assumption | rewrite step_channels by assumption
+                    | rewrite step_data by assumption]);
+      cbn [image_fields a_size a_data a_channels acc0 app]; reflexivity. }
+  unfold image_de, image_de_gen. rewrite F. cbn [bind].
+  apply image_finish_layout; assumption.
+Qed.
